@@ -22,6 +22,7 @@ var stdlibPureNames = map[string]bool{
 	"(encoding/binary.littleEndian).Uint16": true, "(encoding/binary.littleEndian).Uint32": true, "(encoding/binary.littleEndian).Uint64": true,
 	"(*sync.Mutex).Lock": true, "(*sync.Mutex).Unlock": true, "(*sync.RWMutex).Lock": true, "(*sync.RWMutex).Unlock": true,
 	"(*sync.RWMutex).RLock": true, "(*sync.RWMutex).RUnlock": true,
+	"(*sync.Cond).Signal": true, "(*sync.Cond).Broadcast": true,
 	"time.Now": true, "time.Since": true, "(time.Time).Sub": true, "(time.Time).UnixMilli": true, "(time.Time).UnixNano": true,
 	"(time.Time).Before": true, "(time.Time).After": true, "(time.Time).Add": true, "(time.Duration).Milliseconds": true,
 	"math/rand.Intn": true, "math/rand.Float64": true, "(*math/rand.Rand).Intn": true, "(*math/rand.Rand).Float64": true,
@@ -270,8 +271,20 @@ func (e *Encoder) stdlibCall(callee *ssa.Function, cm *ssa.CallCommon, args []Va
 		return v, true
 	case strings.HasPrefix(n, "(*sync.Mutex).") || strings.HasPrefix(n, "(*sync.RWMutex)."):
 		use()
-		e.lockEvent(callee.Name(), cm, args, st, pc)
+		if e.mutexCall(callee.Name(), cm, args, st, pc) {
+			e.usedStdlib["sync.Mutex as a monitor lock (Lock: havoc protected state + assume invariant; Unlock: invariant is an obligation)"] = true
+		}
 		return Val{T: resT}, true
+	case n == "(*sync.Cond).Wait" || n == "(*sync.Cond).Signal" || n == "(*sync.Cond).Broadcast":
+		if e.condCall(callee.Name(), cm, st, pc) {
+			e.usedStdlib["sync.Cond on a monitored object (Wait: obligation, havoc, assume; Signal/Broadcast: no state change)"] = true
+			return Val{T: resT}, true
+		}
+		if callee.Name() != "Wait" {
+			use()
+			return Val{T: resT}, true
+		}
+		return Val{}, false
 	case n == "strings.HasPrefix":
 		use()
 		c.declareFun("str_prefix", []string{"Str", "Str"}, "Bool")
